@@ -25,6 +25,70 @@ NO_0D = tuple(f for f in qc.INT_FORMS if f not in ("t0d", "np0d"))        # opti
 SCALAR_NP = ("py", "np.int64", "np.int32", "np.intp", "np.uint8")
 
 
+# ------------------------------------------------------------------ integer objects outside every quantifier (second audit, item X-1)
+# Every integer option is documented `int`.  Python ints and the numpy integer scalars that arise from `.shape` / `np.arange` / `len`
+# (np.int64 / np.int32 / np.intp) are what callers have in hand: a refusal of one of those is a failed call form.  A 0-d integer ndarray,
+# a 0-d integer torch tensor and np.uint8 are in no property's quantifier: an implementation that REFUSES them (an exception, e.g. from a
+# harmless `isinstance(x, numbers.Integral)` validation) violates nothing, while one that accepts them and silently computes something
+# else still does.  `tolerant` implements exactly that: a case in which such an object was handed over and that ended in an exception
+# (escaping, or caught by an oracle and recorded with an "exception" detail) is run again with those objects replaced by the Python ints
+# they denote (same stream otherwise); what the second run reports stands, the refusals of the first run become an informational counter,
+# mismatches of the first run that are not refusals (wrong VALUES for an exotic object) are kept.
+EXOTIC_INT_FORMS = ("np.uint8", "np0d", "t0d")
+_STATE = {"demote": False, "exotic": 0}
+
+
+def _exotic(v, d):
+    if d["form"] in EXOTIC_INT_FORMS:
+        if _STATE["demote"]:
+            d["demoted_from"], d["form"] = d["form"], "py"
+            return int(d["value"]), d
+        _STATE["exotic"] += 1
+    return v, d
+
+
+def int_obj(form, n):
+    """qc.int_value(form, n) subject to the demotion of `tolerant`"""
+    return _exotic(qc.int_value(form, n), {"form": form, "value": int(n)})[0]
+
+
+def _refusal(rec):
+    return isinstance(rec.get("detail"), dict) and "exception" in rec["detail"]
+
+
+def tolerant(ctx, fn, *args, **kw):
+    """run one case through `fn(*args, **kw)` under the rule above"""
+    from .common import InternalError
+    if _STATE["demote"]:
+        return fn(*args, **kw)
+    e0, p0, a0 = _STATE["exotic"], len(ctx.prop_mismatch), len(ctx.aux_mismatch)
+    exc, r = None, None
+    try:
+        r = fn(*args, **kw)
+    except InternalError:
+        raise
+    except Exception as e:  # noqa: BLE001
+        exc = e
+    newp = ctx.prop_mismatch[p0:]
+    if _STATE["exotic"] == e0 or (exc is None and not any(_refusal(x) for x in newp)):
+        if exc is not None:
+            raise exc
+        return r
+    keep_p, keep_a = [x for x in newp if not _refusal(x)], ctx.aux_mismatch[a0:]
+    dropped = len(newp) - len(keep_p) + (1 if exc is not None else 0)
+    del ctx.prop_mismatch[p0:]
+    del ctx.aux_mismatch[a0:]
+    _STATE["demote"] = True
+    try:
+        r = fn(*args, **kw)      # an exception that does not depend on the exotic objects escapes again (and is reported by main)
+    finally:
+        _STATE["demote"] = False
+        ctx.prop_mismatch.extend(keep_p)
+        ctx.aux_mismatch.extend(keep_a)
+    ctx.count("informational (X-1): integer option given as np.uint8 / 0-d ndarray / 0-d tensor was refused (outside every quantifier); case re-run with Python ints", dropped)
+    return r
+
+
 class Args:
     """stream of argument forms of ONE case.  `aseed=None`: plain Python objects by keyword (the calls made before this round).
     `A.i(n)` -> object denoting the integer n;  `A.b(flag)` -> object denoting the truth value;  `A.coin()` -> hand the next optional
@@ -37,10 +101,10 @@ class Args:
         self.rng = None if aseed is None else random.Random((int(aseed) * 40503 + 977) % (2 ** 31))
 
     def i(self, n, allowed=INT_FORMS):
-        return self.ints(n, allowed)[0]
+        return _exotic(*self.ints(n, allowed))[0]
 
     def i_desc(self, n, allowed=INT_FORMS):
-        return self.ints(n, allowed)
+        return _exotic(*self.ints(n, allowed))
 
     def b(self, flag):
         return self.flags(flag)[0]
